@@ -32,6 +32,25 @@ pub fn expn_j(sp: Span) -> J {
     J::s(format!("{:?}", d.kind))
 }
 
+/// Names of the macros whose expansions enclose `sp`, innermost first
+/// (`cfg`, `debug_assert` for the condition literal of a `debug_assert!`).
+pub fn expn_chain_j(sp: Span) -> J {
+    let mut out = vec![];
+    let mut cur = sp;
+    let mut n = 0;
+    while cur.from_expansion() && n < 16 {
+        let d = cur.ctxt().outer_expn_data();
+        if let rustc_span::ExpnKind::Macro(_, name) = d.kind {
+            out.push(J::s(name.to_string()));
+        } else {
+            out.push(J::s(format!("{:?}", d.kind)));
+        }
+        cur = d.call_site;
+        n += 1;
+    }
+    J::Arr(out)
+}
+
 pub fn ty_j<'tcx>(tcx: TyCtxt<'tcx>, t: Ty<'tcx>) -> J {
     let s = full(|| format!("{}", t));
     let mut o = J::obj();
